@@ -25,6 +25,7 @@ the document or the verifier (an index built by `Validate`, a memoised selection
 stale disagrees with the model on such a history.
 -/
 import NotationModel.Lemmas.C08
+import NotationModel.Generated.SrcC08
 set_option linter.unusedSimpArgs false
 set_option linter.unusedVariables false
 
@@ -660,5 +661,397 @@ example : WF { exBlob with
     stmts := [{ exStmt "x" [] with isGlobal := true }, { exStmt "y" [] with isGlobal := true }] } = false := by decide
 
 end examples
+
+/-! ### tie to the translated source -/
+
+namespace Tie
+open NotationModel.Src NotationModel.Src.trustpolicy
+
+/-- the model's view of a translated OCI statement / blob statement (selection looks at the name,
+the scopes and the global flag only; the other fields are carried along) -/
+def absOCI (p : OCITrustPolicy) : Stmt :=
+  { name := p.Name.toList, scopes := p.RegistryScopes.map String.toList, isGlobal := false,
+    level := p.SignatureVerification.VerificationLevel, override := some p.SignatureVerification.Override,
+    stores := p.TrustStores.map String.toList, identities := p.TrustedIdentities.map String.toList }
+
+def absBlob (p : BlobTrustPolicy) : Stmt :=
+  { name := p.Name.toList, scopes := [], isGlobal := p.GlobalPolicy,
+    level := p.SignatureVerification.VerificationLevel, override := some p.SignatureVerification.Override,
+    stores := p.TrustStores.map String.toList, identities := p.TrustedIdentities.map String.toList }
+
+/-- result shape of a selection: the statement (seen through the abstraction) and whether an error is returned -/
+def shape {P : Type} (abs : P → Stmt) (r : Option P × Option GoLite.Err) : Option Stmt × Bool :=
+  (r.1.map abs, r.2.isSome)
+
+def ofModel : Except SelErr Stmt → Option Stmt × Bool
+  | .ok s => (some s, false)
+  | .error _ => (none, true)
+
+/-- result shape of the path extraction: the path when no error is returned -/
+def shapePath (r : String × Option GoLite.Err) : Option Text := if r.2.isNone then some r.1.toList else none
+
+/-! #### library oracles against the model's list functions -/
+
+theorem beforeLast_lastIdx (c : Char) : ∀ l : List Char, beforeLast c l = (C08lib.lastIdx c l).map (fun k => l.take k) := by
+  intro l
+  induction l with
+  | nil => rfl
+  | cons x r ih =>
+    simp only [beforeLast, C08lib.lastIdx, ih]
+    cases C08lib.lastIdx c r with
+    | some k => simp
+    | none => by_cases hx : x = c <;> simp [hx]
+
+theorem dropWhile_nil_iff (p : Char → Bool) : ∀ l : List Char, l.dropWhile p = [] ↔ ∀ x ∈ l, p x = true
+  | [] => by simp
+  | a :: r => by
+    by_cases h : p a = true
+    · simp [List.dropWhile_cons, h, dropWhile_nil_iff p r]
+    · simp [List.dropWhile_cons, h]
+
+theorem dropWhile_head_not (p : Char → Bool) : ∀ (l : List Char) (x : Char) (r : List Char),
+    l.dropWhile p = x :: r → p x = false
+  | [], _, _, h => by simp at h
+  | a :: l, x, r, h => by
+    by_cases ha : p a = true
+    · rw [List.dropWhile_cons, if_pos ha] at h
+      exact dropWhile_head_not p l x r h
+    · rw [List.dropWhile_cons, if_neg ha] at h
+      injection h with h1 _
+      subst h1
+      exact Bool.eq_false_iff.2 ha
+
+theorem trim_nil (p : Char → Bool) (l : List Char) :
+    ((l.dropWhile p).reverse.dropWhile p).reverse = [] ↔ l.all p = true := by
+  rw [List.reverse_eq_nil_iff, dropWhile_nil_iff, List.all_eq_true]
+  constructor
+  · intro h
+    cases hd : l.dropWhile p with
+    | nil => exact (dropWhile_nil_iff p l).1 hd
+    | cons x r =>
+      have h1 := dropWhile_head_not p l x r hd
+      have h2 := h x (List.mem_reverse.2 (by rw [hd]; exact List.mem_cons_self))
+      rw [h2] at h1; cases h1
+  · intro h x hx
+    have : l.dropWhile p = [] := (dropWhile_nil_iff p l).2 h
+    rw [this] at hx; cases hx
+
+theorem trimSpace_blank (n : String) : (C08lib.TrimSpace n == "") = isBlank n.toList := by
+  unfold C08lib.TrimSpace isBlank
+  have key : (String.ofList ((n.toList.dropWhile isSpace).reverse.dropWhile isSpace).reverse == "") =
+      decide (((n.toList.dropWhile isSpace).reverse.dropWhile isSpace).reverse = []) := by
+    rw [Bool.eq_iff_iff]
+    simp only [beq_iff_eq, decide_eq_true_eq]
+    rw [← String.toList_inj, String.toList_ofList]
+    rfl
+  rw [key, Bool.eq_iff_iff, decide_eq_true_eq]
+  exact trim_nil isSpace n.toList
+
+theorem contains_toList (l : List String) (s : String) :
+    (l.map String.toList).contains s.toList = GoLite.contains l s := by
+  unfold GoLite.contains
+  induction l with
+  | nil => rfl
+  | cons a r ih =>
+    simp only [List.map_cons, List.contains_cons, ih]
+    congr 1
+    rw [Bool.eq_iff_iff]
+    simp only [beq_iff_eq]
+    exact String.toList_inj
+
+theorem wildcard_src : (String.ofList Facts.c08Wildcard).toList = wildcard := String.toList_ofList
+
+/-! #### loops -/
+
+/-- closes the case-by-case obligations "the loop body is this step function" -/
+macro "tie_cases" : tactic =>
+  `(tactic| ((repeat' split) <;> first | rfl | simp_all | simp_all [eq_comm] | (exfalso; simp_all [eq_comm])))
+
+/-- a loop whose body always runs to its end is a left fold -/
+theorem forIn_pure_foldl {α S : Type} (body : α → S → Id (ForInStep S)) (f : S → α → S)
+    (h : ∀ a s, body a s = pure (ForInStep.yield (f s a))) (l : List α) (s : S) :
+    forIn l s body = pure (l.foldl f s) := by
+  induction l generalizing s with
+  | nil => rfl
+  | cons a l ih => rw [List.forIn_cons, h]; simp only [pure_bind, List.foldl_cons]; exact ih _
+
+/-- a loop that returns at the first element passing a test -/
+theorem foldE_find {α : Type} (t : α → Bool) : ∀ l : List α,
+    GoLite.foldE (fun (_ : Unit) a => if t a = true then Except.error a else Except.ok ()) l () =
+      match l.find? t with
+      | some a => .error ((), a)
+      | none => .ok () := by
+  intro l
+  induction l with
+  | nil => rfl
+  | cons a l ih =>
+    by_cases h : t a = true
+    · simp [GoLite.foldE, h]
+    · simp [GoLite.foldE, h, ih]
+
+abbrev P2 := Option OCITrustPolicy × Option OCITrustPolicy
+
+/-- the body of the OCI loop with the loop state in the order (wildcardPolicy, applicablePolicy) -/
+def stepWA (wild path : String) (s : P2) (p : OCITrustPolicy) : P2 :=
+  if GoLite.contains p.RegistryScopes wild = true then (some p, s.2)
+  else if GoLite.contains p.RegistryScopes path = true then (s.1, some p)
+  else s
+
+theorem foldl_stepWA (wild path : String) (hw : wild.toList = wildcard) : ∀ (l : List OCITrustPolicy) (s : P2),
+    ((l.foldl (stepWA wild path) s).1.map absOCI, (l.foldl (stepWA wild path) s).2.map absOCI) =
+      scan path.toList (l.map absOCI) (s.1.map absOCI) (s.2.map absOCI) := by
+  intro l
+  induction l with
+  | nil => intro s; rfl
+  | cons p r ih =>
+    intro s
+    simp only [List.foldl_cons, List.map_cons, scan, ih]
+    have h1 : (absOCI p).scopes.contains wildcard = GoLite.contains p.RegistryScopes wild := by
+      rw [← hw]; exact contains_toList _ _
+    have h2 : (absOCI p).scopes.contains path.toList = GoLite.contains p.RegistryScopes path := contains_toList _ _
+    rw [h1, h2]
+    unfold stepWA
+    by_cases c1 : GoLite.contains p.RegistryScopes wild = true
+    · simp [c1]
+    · by_cases c2 : GoLite.contains p.RegistryScopes path = true
+      · simp [c1, c2]
+      · simp [c1, c2]
+
+/-- the same body with the loop state in the order (applicablePolicy, wildcardPolicy) -/
+def stepAW (wild path : String) (s : P2) (p : OCITrustPolicy) : P2 :=
+  if GoLite.contains p.RegistryScopes wild = true then (s.1, some p)
+  else if GoLite.contains p.RegistryScopes path = true then (some p, s.2)
+  else s
+
+theorem foldl_stepAW (wild path : String) : ∀ (l : List OCITrustPolicy) (s : P2),
+    l.foldl (stepAW wild path) (s.2, s.1) =
+      ((l.foldl (stepWA wild path) s).2, (l.foldl (stepWA wild path) s).1) := by
+  intro l
+  induction l with
+  | nil => intro s; rfl
+  | cons p r ih =>
+    intro s
+    simp only [List.foldl_cons]
+    have : stepAW wild path (s.2, s.1) p = ((stepWA wild path s p).2, (stepWA wild path s p).1) := by
+      unfold stepAW stepWA
+      (repeat' split) <;> rfl
+    rw [this]
+    exact ih _
+
+/-- TIE (translated source): `getArtifactPathFromReference`, translated from
+verifier/trustpolicy/oci.go on every run, returns for EVERY reference exactly the repository path
+of the model's `artifactPath` and an error exactly when `artifactPath` refuses - for every scope
+format check `validFmt` (`validateRegistryScopeFormat`, a parameter) that accepts what the model's
+`validFormat` accepts. -/
+theorem source_getArtifactPathFromReference_refines_model (validFmt : String → Option GoLite.Err)
+    (hv : ∀ s, (validFmt s).isNone = validFormat s.toList) (ref : String) :
+    shapePath (getArtifactPathFromReference validFmt ref) = artifactPath ref.toList := by
+  unfold getArtifactPathFromReference artifactPath
+  simp only [Id.run]
+  have hat : ("@" : String).toList = ['@'] := by decide
+  simp only [C08lib.LastIndex, hat, beforeLast_lastIdx]
+  cases hl : C08lib.lastIdx '@' ref.toList with
+  | none => simp [shapePath, GoLite.idPure]
+  | some k =>
+    have hk : ¬ ((k : Int) < 0) := by omega
+    simp only [hk, decide_false, Bool.false_eq_true, if_false, Option.map_some]
+    have hs : (GoLite.slice ref (0 : Int) (some (k : Int))).toList = ref.toList.take k := by
+      simp [GoLite.slice, GoLite.Slice.slice, String.toList_ofList]
+    have hvv := hv (GoLite.slice ref (0 : Int) (some (k : Int)))
+    rw [hs] at hvv
+    cases hf : validFmt (GoLite.slice ref (0 : Int) (some (k : Int))) with
+    | none =>
+      rw [hf] at hvv
+      simp [shapePath, GoLite.idPure, ← hvv, hs]
+    | some e =>
+      rw [hf] at hvv
+      simp [shapePath, GoLite.idPure, ← hvv]
+
+/-- TIE (translated source): `OCIDocument.GetApplicableTrustPolicy`. For EVERY document (any
+statements, valid or not) and every reference the translated function returns exactly the statement
+the model's `selectOCI` selects on the abstracted document, and an error exactly when `selectOCI`
+refuses (malformed reference or no applicable statement). -/
+theorem source_GetApplicableTrustPolicy_refines_model (validFmt : String → Option GoLite.Err)
+    (hv : ∀ s, (validFmt s).isNone = validFormat s.toList) (doc : OCIDocument) (ref : String) :
+    shape absOCI (OCIDocument.GetApplicableTrustPolicy validFmt doc ref) =
+      ofModel (selectOCI (doc.TrustPolicies.map absOCI) ref.toList) := by
+  have hpath := source_getArtifactPathFromReference_refines_model validFmt hv ref
+  unfold OCIDocument.GetApplicableTrustPolicy selectOCI
+  simp only [Id.run]
+  generalize getArtifactPathFromReference validFmt ref = g at hpath ⊢
+  obtain ⟨path, err⟩ := g
+  cases err with
+  | some e =>
+    simp only [shapePath, Option.isNone_some, Bool.false_eq_true, if_false] at hpath
+    simp [← hpath, shape, ofModel, GoLite.idPure]
+  | none =>
+    simp only [shapePath, Option.isNone_none, if_true] at hpath
+    rw [← hpath]
+    simp only [Option.isSome_none, Bool.false_eq_true, if_false]
+    first
+    | -- loop state in the order (wildcardPolicy, applicablePolicy)
+      rw [forIn_pure_foldl _ (stepWA (String.ofList Facts.c08Wildcard) path) ?h]
+      case h =>
+        intro a s
+        first
+        | (by_cases c1 : GoLite.contains a.RegistryScopes (String.ofList Facts.c08Wildcard) = true <;>
+           by_cases c2 : GoLite.contains a.RegistryScopes path = true <;>
+           simp [stepWA, OCITrustPolicy.clone, c1, c2])
+        | (simp only [stepWA, OCITrustPolicy.clone]; tie_cases)
+      simp only [pure_bind]
+      have hf := foldl_stepWA (String.ofList Facts.c08Wildcard) path wildcard_src doc.TrustPolicies (none, none)
+      simp only [Option.map_none] at hf
+      rw [← hf]
+      generalize List.foldl (stepWA (String.ofList Facts.c08Wildcard) path) (none, none) doc.TrustPolicies = r
+      obtain ⟨w, a⟩ := r
+      cases w <;> cases a <;> simp [shape, ofModel, GoLite.idPure]
+    | -- loop state in the order (applicablePolicy, wildcardPolicy)
+      rw [forIn_pure_foldl _ (stepAW (String.ofList Facts.c08Wildcard) path) ?h]
+      case h =>
+        intro a s
+        first
+        | (by_cases c1 : GoLite.contains a.RegistryScopes (String.ofList Facts.c08Wildcard) = true <;>
+           by_cases c2 : GoLite.contains a.RegistryScopes path = true <;>
+           simp [stepAW, OCITrustPolicy.clone, c1, c2])
+        | (simp only [stepAW, OCITrustPolicy.clone]; tie_cases)
+      simp only [pure_bind]
+      have hsw0 := foldl_stepAW (String.ofList Facts.c08Wildcard) path doc.TrustPolicies (none, none)
+      simp only [] at hsw0
+      rw [hsw0]
+      have hf := foldl_stepWA (String.ofList Facts.c08Wildcard) path wildcard_src doc.TrustPolicies (none, none)
+      simp only [Option.map_none] at hf
+      rw [← hf]
+      generalize List.foldl (stepWA (String.ofList Facts.c08Wildcard) path) (none, none) doc.TrustPolicies = r
+      obtain ⟨w, a⟩ := r
+      cases w <;> cases a <;> simp [shape, ofModel, GoLite.idPure]
+
+/-- TIE (translated source): `BlobDocument.GetApplicableTrustPolicy`. For EVERY blob document and
+every requested name the translated function returns exactly the statement the model's `selectBlob`
+selects, and an error exactly when `selectBlob` refuses (blank name, no statement of that name). -/
+theorem source_BlobGetApplicableTrustPolicy_refines_model (doc : BlobDocument) (name : String) :
+    shape absBlob (BlobDocument.GetApplicableTrustPolicy doc name) =
+      ofModel (selectBlob (doc.TrustPolicies.map absBlob) name.toList) := by
+  unfold BlobDocument.GetApplicableTrustPolicy selectBlob
+  simp only [Id.run, trimSpace_blank]
+  by_cases hb : isBlank name.toList = true
+  · simp [hb, shape, ofModel, GoLite.idPure]
+  · simp only [hb, Bool.false_eq_true, if_false]
+    have hfun : ((fun s : Stmt => s.name == name.toList) ∘ absBlob) = (fun p : BlobTrustPolicy => p.Name == name) := by
+      funext p
+      simp only [Function.comp, absBlob]
+      rw [Bool.eq_iff_iff]
+      simp only [beq_iff_eq]
+      exact String.toList_inj
+    first
+    | -- `return` inside the loop
+      rw [GoLite.forIn_eq_foldE' _ (fun (_ : Unit) (p : BlobTrustPolicy) => if (p.Name == name) = true then Except.error p else Except.ok ())
+        (fun _ => (none, ())) (fun _ p => (some (p.clone, none), ())) ?h _ _ () rfl]
+      case h =>
+        intro a t
+        first
+        | (by_cases hc : a.Name = name
+           · subst hc; simp
+           · have hc' : ¬ name = a.Name := fun h => hc h.symm
+             simp [hc, hc'])
+        | tie_cases
+      rw [foldE_find (fun p : BlobTrustPolicy => p.Name == name), List.find?_map, hfun]
+      cases List.find? (fun p : BlobTrustPolicy => p.Name == name) doc.TrustPolicies with
+      | none => simp only [pure_bind]; simp [shape, ofModel, GoLite.idPure]
+      | some p => simp only [pure_bind]; simp [shape, ofModel, GoLite.idPure, BlobTrustPolicy.clone]
+    | -- a result variable set before `break`, tested after the loop
+      rw [GoLite.forIn_eq_foldE' _ (fun (_ : Unit) (p : BlobTrustPolicy) => if (p.Name == name) = true then Except.error p else Except.ok ())
+        (fun _ => none) (fun _ p => p.clone) ?h _ _ () rfl]
+      case h =>
+        intro a t
+        first
+        | (by_cases hc : a.Name = name
+           · subst hc; simp
+           · have hc' : ¬ name = a.Name := fun h => hc h.symm
+             simp [hc, hc'])
+        | tie_cases
+      rw [foldE_find (fun p : BlobTrustPolicy => p.Name == name), List.find?_map, hfun]
+      cases List.find? (fun p : BlobTrustPolicy => p.Name == name) doc.TrustPolicies with
+      | none => simp only [pure_bind]; simp [shape, ofModel, GoLite.idPure]
+      | some p => simp only [pure_bind]; simp [shape, ofModel, GoLite.idPure, BlobTrustPolicy.clone]
+
+/-- TIE (translated source): `BlobDocument.GetGlobalTrustPolicy` is the model's `selectGlobal` on
+every blob document. -/
+theorem source_GetGlobalTrustPolicy_refines_model (doc : BlobDocument) :
+    shape absBlob (BlobDocument.GetGlobalTrustPolicy doc) = ofModel (selectGlobal (doc.TrustPolicies.map absBlob)) := by
+  unfold BlobDocument.GetGlobalTrustPolicy selectGlobal
+  simp only [Id.run]
+  have hfun : ((fun s : Stmt => s.isGlobal) ∘ absBlob) = (fun p : BlobTrustPolicy => p.GlobalPolicy) := rfl
+  first
+  | -- `return` inside the loop
+    rw [GoLite.forIn_eq_foldE' _ (fun (_ : Unit) (p : BlobTrustPolicy) => if p.GlobalPolicy = true then Except.error p else Except.ok ())
+      (fun _ => (none, ())) (fun _ p => (some (p.clone, none), ())) ?h _ _ () rfl]
+    case h =>
+      intro a t
+      first
+      | (by_cases hc : a.GlobalPolicy = true <;> simp [hc])
+      | tie_cases
+    rw [foldE_find (fun p : BlobTrustPolicy => p.GlobalPolicy), List.find?_map, hfun]
+    cases List.find? (fun p : BlobTrustPolicy => p.GlobalPolicy) doc.TrustPolicies with
+    | none => simp only [pure_bind]; simp [shape, ofModel, GoLite.idPure]
+    | some p => simp only [pure_bind]; simp [shape, ofModel, GoLite.idPure, BlobTrustPolicy.clone]
+  | -- a result variable set before `break`, tested after the loop
+    rw [GoLite.forIn_eq_foldE' _ (fun (_ : Unit) (p : BlobTrustPolicy) => if p.GlobalPolicy = true then Except.error p else Except.ok ())
+      (fun _ => none) (fun _ p => p.clone) ?h _ _ () rfl]
+    case h =>
+      intro a t
+      first
+      | (by_cases hc : a.GlobalPolicy = true <;> simp [hc])
+      | tie_cases
+    rw [foldE_find (fun p : BlobTrustPolicy => p.GlobalPolicy), List.find?_map, hfun]
+    cases List.find? (fun p : BlobTrustPolicy => p.GlobalPolicy) doc.TrustPolicies with
+    | none => simp only [pure_bind]; simp [shape, ofModel, GoLite.idPure]
+    | some p => simp only [pure_bind]; simp [shape, ofModel, GoLite.idPure, BlobTrustPolicy.clone]
+
+/-- the property theorems transfer to the translated function, e.g. order independence: two
+documents with the same statements in any order, unique scopes - the TRANSLATED selection returns
+the same statement (or refuses alike) for every reference -/
+theorem source_GetApplicableTrustPolicy_order_independent (validFmt : String → Option GoLite.Err)
+    (hv : ∀ s, (validFmt s).isNone = validFormat s.toList) (d d' : OCIDocument)
+    (hperm : d.TrustPolicies.Perm d'.TrustPolicies) (hu : scopesUnique (d.TrustPolicies.map absOCI) = true) (ref : String) :
+    shape absOCI (OCIDocument.GetApplicableTrustPolicy validFmt d ref) =
+      shape absOCI (OCIDocument.GetApplicableTrustPolicy validFmt d' ref) := by
+  rw [source_GetApplicableTrustPolicy_refines_model validFmt hv, source_GetApplicableTrustPolicy_refines_model validFmt hv,
+    select_perm _ _ (hperm.map absOCI) hu]
+
+/-! #### non-vacuity: the translated functions on concrete inputs -/
+
+/-- the scope format check the examples run with: the model's own -/
+def vf (s : String) : Option GoLite.Err := if validFormat s.toList then none else some ⟨"error"⟩
+
+theorem vf_ok : ∀ s, (vf s).isNone = validFormat s.toList := by
+  intro s; unfold vf; cases validFormat s.toList <;> rfl
+
+def srcStmt (n : String) (scopes : List String) : OCITrustPolicy :=
+  { Name := n, SignatureVerification := { VerificationLevel := "strict", Override := [], VerifyTimestamp := "" },
+    TrustStores := ["ca:s"], TrustedIdentities := ["*"], RegistryScopes := scopes }
+
+def srcDoc : OCIDocument :=
+  { Version := "1.0", TrustPolicies := [srcStmt "w" ["*"], srcStmt "a" ["r.io/app", "r.io/app2"], srcStmt "b" ["r.io/app/sub"]] }
+
+example : (getArtifactPathFromReference vf "r.io/app/sub@d").1 = "r.io/app/sub" := by decide
+example : (getArtifactPathFromReference vf "r.io/app:v1@d").2.isSome = true := by decide
+example : (getArtifactPathFromReference vf "r.io/app").2.isSome = true := by decide
+example : ((OCIDocument.GetApplicableTrustPolicy vf srcDoc "r.io/app@d").1.map (·.Name)) = some "a" := by decide
+example : ((OCIDocument.GetApplicableTrustPolicy vf srcDoc "r.io/ap@d").1.map (·.Name)) = some "w" := by decide
+example : (OCIDocument.GetApplicableTrustPolicy vf { srcDoc with TrustPolicies := srcDoc.TrustPolicies.tail } "r.io/ap@d").2.isSome = true := by decide
+
+def srcBlob (n : String) (g : Bool) : BlobTrustPolicy :=
+  { Name := n, SignatureVerification := { VerificationLevel := "strict", Override := [], VerifyTimestamp := "" },
+    TrustStores := ["ca:s"], TrustedIdentities := ["*"], GlobalPolicy := g }
+
+def srcBlobDoc : BlobDocument := { Version := "1.0", TrustPolicies := [srcBlob "blob-policy" false, srcBlob "blob-policy2" true] }
+
+example : ((BlobDocument.GetApplicableTrustPolicy srcBlobDoc "blob-policy2").1.map (·.Name)) = some "blob-policy2" := by decide
+example : (BlobDocument.GetApplicableTrustPolicy srcBlobDoc "blob-polic").2.isSome = true := by decide
+example : (BlobDocument.GetApplicableTrustPolicy srcBlobDoc " ").2.isSome = true := by decide
+example : ((BlobDocument.GetGlobalTrustPolicy srcBlobDoc).1.map (·.Name)) = some "blob-policy2" := by decide
+example : (BlobDocument.GetGlobalTrustPolicy { srcBlobDoc with TrustPolicies := [srcBlob "x" false] }).2.isSome = true := by decide
+
+end Tie
 
 end NotationModel.C08
